@@ -89,7 +89,7 @@ def memo_invariants(anon, B, snapshot=None, sample_rng=None, limit=400):
     # write-once
     if snapshot:
         for k, v in snapshot.items():
-            if cache.get(k) != v:
+            if k in cache and cache[k] != v:
                 return "memo entry %r changed from %r to %r" % (k, v, cache.get(k)), snapshot
     newsnap = dict(snapshot or {})
     for k in keys[:50]:
